@@ -190,13 +190,13 @@ class Tracer:
 # --------------------------------------------------------------- determinism
 class _FakeTime:
     """Stands in for the `time` module inside stdlib `mailbox` and
-    `pymap.mailbox`: a clock that advances by a microsecond per call."""
+    `pymap.mailbox`: a clock that stands still (maildir keys then differ by
+    their counter only, and Maildir._refresh always re-reads the directory)."""
 
     def __init__(self, start: float) -> None:
         self.now = start
 
     def time(self) -> float:
-        self.now += 1e-6
         return self.now
 
     def __getattr__(self, name):
@@ -629,6 +629,7 @@ def _child_reference(base: str, layout: str, history, out_path: str,
                      tmpdir: str | None) -> None:
     """Runs in a forked child: the full history with tracing and with a dump
     (tracer paused, second connection, EXAMINE) after every command."""
+    import random
     from .pymap_env import run
     determinize()
     if tmpdir:
@@ -647,7 +648,9 @@ def _child_reference(base: str, layout: str, history, out_path: str,
         conn = await env.login()
         await conn.send(b'w0 STATUS INBOX (MESSAGES)\r\n')
         res['fs0'] = snapshot(pm)
+        state = random.getstate()
         res['dump0'] = await dump_server(env)
+        random.setstate(state)
         recs = []
         for i, c in enumerate(history):
             tag = b'h%d' % i
@@ -657,7 +660,9 @@ def _child_reference(base: str, layout: str, history, out_path: str,
             evs = [_rel(base, e) for e in fill_writes(tr.take())]
             rec = {'cmd': c, 'resp': resp.decode('latin-1'), 'status': status_of(tag, resp),
                    'events': evs, 'exc': repr(conn.exc) if conn.exc else None}
+            state = random.getstate()
             rec['dump'] = await dump_server(env)
+            random.setstate(state)
             recs.append(rec)
             if conn.closed:
                 break
@@ -737,37 +742,36 @@ def _warm_up() -> None:
 
 def crash_experiment(args: dict) -> dict:
     """Worker entry (runs in a spawned process): one history on one layout.
-    args: layout, history, ks ('all' | list | None), crossfs (bool).
-    Returns the reference run and, per k, what a fresh server serves from the
-    directory left by a process killed after k filesystem operations."""
+    args: layout, history, crossfs (bool), and either
+      ks = None            -> reference run only (full trace, dump after
+                              every command), or
+      ks = [k, ...], total -> for each k what a fresh server serves from the
+                              directory left by a process killed after k
+                              filesystem operations of the same history."""
     layout, history = args['layout'], args['history']
     tmpdir = None
     _warm_up()
-    res: dict = {'layout': layout, 'history': history, 'crossfs': bool(args.get('crossfs'))}
+    res: dict = {'layout': layout, 'history': history, 'crossfs': bool(args.get('crossfs')),
+                 'id': args.get('id')}
     side = tempfile.mkdtemp(prefix='pvside-')
     if args.get('crossfs'):
         tmpdir = tempfile.mkdtemp(prefix='pvtmp-', dir='/dev/shm')
     try:
-        base = tempfile.mkdtemp(prefix='pvref-')
-        try:
-            out = os.path.join(side, 'ref.json')
-            rc = _fork(_child_reference, base, layout, history, out, tmpdir)
-            res['ref_rc'] = rc
-            res['ref'] = json.load(_real['open'](out)) if os.path.exists(out) else None
-            res['ref_locks'] = [p.replace(base, '/B') for p in find_locks(base)]
-        finally:
-            shutil.rmtree(base, ignore_errors=True)
-        if not res['ref'] or 'cmds' not in res['ref']:
+        if args.get('ks') is None:
+            base = tempfile.mkdtemp(prefix='pvref-')
+            try:
+                out = os.path.join(side, 'ref.json')
+                rc = _fork(_child_reference, base, layout, history, out, tmpdir)
+                res['ref_rc'] = rc
+                res['ref'] = json.load(_real['open'](out)) if os.path.exists(out) else None
+                res['ref_locks'] = [p.replace(base, '/B') for p in find_locks(base)]
+            finally:
+                shutil.rmtree(base, ignore_errors=True)
+            if res['ref'] and 'cmds' in res['ref']:
+                res['total_ops'] = sum(len(c['events']) for c in res['ref']['cmds'])
             return res
-        total = sum(len(c['events']) for c in res['ref']['cmds'])
-        res['total_ops'] = total
-        ks = args.get('ks')
-        if ks == 'all':
-            ks = list(range(total + 1))
         res['crashes'] = []
-        for k in ks or []:
-            if k > total:
-                continue
+        for k in args['ks']:
             base = tempfile.mkdtemp(prefix='pvkill-')
             try:
                 log = os.path.join(side, f'log{k}.jsonl')
@@ -802,3 +806,25 @@ def run_experiments(jobs: list[dict], workers: int = 12) -> list[dict]:
     ctx = mp.get_context('spawn')
     with ProcessPoolExecutor(max_workers=min(workers, len(jobs)), mp_context=ctx) as ex:
         return list(ex.map(crash_experiment, jobs))
+
+
+def crash_campaign(jobs: list[dict], pick_ks, workers: int = 12, chunk: int = 6) -> list[dict]:
+    """Phase 1: the reference run of every job (layout, history, crossfs).
+    Phase 2: kill runs for the crash points `pick_ks(total_ops)` chooses,
+    spread over the workers in chunks.  Returns the reference results, each
+    with a 'crashes' list sorted by k."""
+    refs = run_experiments([dict(j, ks=None, id=i) for i, j in enumerate(jobs)], workers)
+    kill_jobs = []
+    for r in refs:
+        r['crashes'] = []
+        if not r.get('ref') or 'cmds' not in r['ref'] or r['ref'].get('error'):
+            continue
+        ks = sorted(set(k for k in pick_ks(r['total_ops']) if 0 <= k <= r['total_ops']))
+        for i in range(0, len(ks), chunk):
+            kill_jobs.append({'layout': r['layout'], 'history': r['history'],
+                              'crossfs': r['crossfs'], 'ks': ks[i:i + chunk], 'id': r['id']})
+    for kr in run_experiments(kill_jobs, workers):
+        refs[kr['id']]['crashes'] += kr['crashes']
+    for r in refs:
+        r['crashes'].sort(key=lambda c: c['k'])
+    return refs
